@@ -65,6 +65,26 @@ CLAIMED = {
              note="Trusted: go/ssa; PATHSIM bounds; bytes.Compare and Go string order are the bytewise order.", ref="§3 C13"),
 }
 
+# clauses added in build round 2 (appended to the technique text of the property)
+ADDENDA = {
+ "C01": "; lockset rule that the docs write and the meta write of one bulk share one hold of the writer mutex",
+ "C02": "; comparator pairing (whoever orders by MID also compares RID) in the active posting-list merge; idiom rule for the second binary search of the LID window",
+ "C03": "; mirror-sibling rule for the ascending/descending posting-list iterators (the block walk ends only on the bound ahead of it)",
+ "C04": "; alias/mutation-sink analysis of the request's id list inside the fetcher",
+ "C05": "; key rule for the repetition test of the result merge (document id only)",
+ "C07": "; read-modify-write-in-one-hold rule for every guarded field; snapshot order in TokenLIDs.GetLIDs",
+ "C09": "; provenance of the per-bulk write status (created per call or reset before use)",
+ "C10": "; no reader activity between reading the document line and returning its view",
+ "C11": "; append-to-view rule extended to the indexer (append-style APIs recognised)",
+ "C12": "; conditional constant propagation with input partitioning (FINITE) recovering the negation push-down table of propagateNot and comparing every cell with the truth table of the input; constant-index reads of the input text dominated by a length test",
+ "C13": "; type-switch dominance rule for the dictionary pre-selection hint (literals only)",
+ "C14": "; evidence rule for the constant-true answers of the sealed LID-border predicate",
+ "C15": "; the loader's decision walk inlines its private helpers; a SKIP outcome never finishes a deletion; a sealed fraction with both .docs and .sdocs left is checked against the file Sealed.openDocs prefers",
+ "C16": "; every return of the per-store stream iterator is dominated by that call's Recv",
+ "C17": "; alias/mutation-sink analysis of SetMultiple's parameters",
+ "C18": "; read-modify-write-in-one-hold rule for the cleaner's bucket list",
+}
+
 NOT_YET = "check not built yet in this round (planned in DESIGN.md §3); nothing is claimed for it"
 
 def main():
@@ -88,7 +108,7 @@ def main():
                 "engine": "seqverif",
                 "level_claimed": {"category": "other", "text": c["text"], "design_ref": c["ref"]},
                 "level_note": c["note"],
-                "technique": c["technique"],
+                "technique": c["technique"] + ADDENDA.get(pid, ""),
             })
         else:
             na.append({"property_id": pid, "reason": extra.get("na", {}).get(pid, NOT_YET)})
